@@ -958,3 +958,86 @@ Lemma eng_send_kind : forall g evs0 now ch q p mk,
   exists t a b c seeds es s, xget q e = Some (QL t a b c seeds es s) /\ mk = req_of t /\
     snd (next_action c s now) = ASend p.
 Proof. intros g evs0 now ch q p mk e. apply send_kind. apply reach_einv. Qed.
+
+(* ------------------------------------------------------------------ every engine send is a fresh Model.v send *)
+
+Lemma run_snoc_snd : forall c es s0 ev,
+  snd (run c s0 (es ++ [ev])) = snd (run c s0 es) ++ [snd (step c (fst (run c s0 es)) ev)].
+Proof.
+  intros c es. induction es as [| e t IH]; intros s0 ev.
+  - cbn [app run fst snd]. destruct (step c s0 ev) as [s1 a]. reflexivity.
+  - change ((e :: t) ++ [ev]) with (e :: (t ++ [ev])). cbn [run].
+    destruct (step c s0 e) as [s1 a]. specialize (IH s1 ev).
+    destruct (run c s1 (t ++ [ev])) as [s2 l]. destruct (run c s1 t) as [s3 l3]. cbn [fst snd] in *.
+    rewrite IH. reflexivity.
+Qed.
+
+(* the query that acted in a poll, and what became of its entry *)
+Lemma xscan_acting : forall g now e,
+  einv g e -> snd (xscan now e) <> XNone ->
+  exists q x, xget q e = Some x /\ snd (poll now q x) = snd (xscan now e) /\
+              xget q (fst (xscan now e)) = fst (poll now q x).
+Proof.
+  intros g now e. induction e as [| [q x] t IH]; intros He Ha; [cbn in Ha; congruence |].
+  assert (Ht : einv g t).
+  { destruct He as [Hw Hl]. split; [unfold wf in *; cbn [map] in Hw; inversion Hw; assumption |].
+    intros k y Hi. eapply Hl. right. exact Hi. }
+  assert (Hq : ~ In q (map fst t)).
+  { destruct He as [Hw _]. unfold wf in Hw. cbn [map fst] in Hw. inversion Hw; assumption. }
+  cbn [xscan] in *. destruct (poll now q x) as [[x' |] a] eqn:Ep.
+  - destruct a.
+    1: { destruct (xscan now t) as [t' a'] eqn:Es. cbn [fst snd] in *.
+         destruct (IH Ht Ha) as [q0 [x0 [G0 [P0 R0]]]]. exists q0, x0.
+         assert (Hne : q <> q0).
+         { intros ->. apply Hq. apply xget_keys. congruence. }
+         cbn [xget]. rewrite (proj2 (N.eqb_neq q q0) Hne). auto. }
+    all: exists q, x; cbn [xget fst snd]; rewrite N.eqb_refl, Ep; auto.
+  - exists q, x. cbn [xget fst snd]. rewrite N.eqb_refl, Ep. cbn [fst snd].
+    split; [reflexivity | split; [reflexivity |]]. apply xget_none. exact Hq.
+Qed.
+
+Lemma xstep_next_acting : forall g e now ch,
+  einv g e -> snd (xstep g e (XNext now ch)) <> XNone ->
+  exists q x, xget q e = Some x /\ snd (poll now q x) = snd (xstep g e (XNext now ch)) /\
+              xget q (fst (xstep g e (XNext now ch))) = fst (poll now q x).
+Proof.
+  intros g e now ch He Ha. cbn [xstep] in *. destruct ch as [| chp]; [apply (xscan_acting g); assumption |].
+  remember (N.pos chp - 1) as q. destruct (xget q e) as [x |] eqn:Eg; [| cbn [snd] in Ha; congruence].
+  exists q, x. destruct (poll now q x) as [[x' |] a] eqn:Ep; cbn [fst snd].
+  - split; [exact Eg | split; [reflexivity |]]. rewrite xget_xupd_same, Eg. reflexivity.
+  - split; [exact Eg | split; [reflexivity | apply xget_xdel_same]].
+Qed.
+
+(* A SendMessage of the engine for query q goes to a peer that the recorded single-query history of q
+   has not been sent to and that is not the local peer; afterwards the recorded history has exactly this
+   one send more. So over the life of a query the engine's sends for it are pairwise distinct. *)
+Lemma eng_send_fresh : forall g evs0 now ch q p mk,
+  let e := fst (xrun g [] evs0) in
+  snd (xstep g e (XNext now ch)) = XSend q p mk ->
+  exists t a b c seeds es s,
+    xget q e = Some (QL t a b c seeds es s) /\ mk = req_of t /\
+    (dist_inj c -> ~ In (c_local c) seeds ->
+     p <> g_local g /\ ~ In p (sends (snd (run c (init c seeds) es)))) /\
+    exists s', xget q (fst (xstep g e (XNext now ch))) = Some (QL t a b c seeds (es ++ [ENext now]) s') /\
+      sends (snd (run c (init c seeds) (es ++ [ENext now]))) = sends (snd (run c (init c seeds) es)) ++ [p].
+Proof.
+  intros g evs0 now ch q p mk e Ha.
+  pose proof (reach_einv g evs0) as He. fold e in He.
+  destruct (xstep_next_acting g e now ch He) as [q0 [x [Hg [Hp Hr]]]]; [rewrite Ha; discriminate |].
+  rewrite Ha in Hp.
+  assert (Hx : linv2 g x) by (destruct He as [_ Hl]; eapply Hl; apply xget_in; exact Hg).
+  destruct x as [t a b c seeds es s | a b peers | t pd sc nd]; cbn [poll] in Hp, Hr.
+  2: discriminate.
+  2: { destruct pd; [destruct (nd <=? sc); [destruct t |] |]; discriminate. }
+  destruct Hx as [[Hs Hd] [_ [_ [_ [El _]]]]].
+  destruct (next_action c s now) as [s' act] eqn:En. cbn [fst snd] in Hp, Hr.
+  destruct act; cbn [lift_action] in Hp; try discriminate; [| destruct t; discriminate].
+  injection Hp as E1 E2 E3. subst q0 p0 mk. cbn [is_terminal] in Hr.
+  exists t, a, b, c, seeds, es, s. split; [exact Hg | split; [reflexivity | split]].
+  - intros Hinj Hloc.
+    pose proof (send_closest_reach c seeds es now p Hinj Hloc) as K. cbn zeta in K.
+    rewrite grun_run in K. rewrite <- Hs, En in K. specialize (K eq_refl).
+    destruct K as [_ [K2 [K3 _]]]. rewrite grun_sent in K2. cbn [ghost0 g_sent app] in K2.
+    split; [rewrite <- El; exact K3 | exact K2].
+  - exists s'. split; [exact Hr |]. rewrite run_snoc_snd, sends_app. cbn [step]. rewrite <- Hs, En. reflexivity.
+Qed.
